@@ -12,6 +12,11 @@ task is finished or blocked for good; the transport task is first or last in the
 lock/condition/event operation, the send point, and (optionally) every source line of the
 send/close paths of channel.py.
 
+A second engine ("xkex", see run_xkex): a production transport against a raw puppet on the in-memory link; the peer's [DATA] [EOF]
+CLOSE for 1-2 channels cross a re-exchange the tested side has just started (its KEXINIT is held on the link), optionally with a
+local shutdown_write before and a close()/shutdown_write() from an application thread during the exchange; clauses 1-3 are judged on
+what the puppet received once the exchange is over (a CLOSE answer may be late, not lost).
+
 Oracle (invariant of the outbound wire log of the channel):
   1. at most one EOF and at most one CLOSE;
   2. if a peer CLOSE reached the channel, exactly one CLOSE is on the wire at the end;
@@ -52,7 +57,9 @@ RULE = (
     "a lock release in _send/close/shutdown/_handle_close and the corresponding transmission; distinct by SHA-1 of the case. Two further program families: "
     "'late' (peer CLOSE guaranteed; 1-2 tasks that wait until both CLOSEs are exchanged and then run 1-4 operations of the whole surface in generated "
     "order: clause 'operations on a released channel fail instead of sending', judged on the history by operation start vs release point) and "
-    "'zero-window' (window 0/10, 2-3 application tasks, peer WINDOW_ADJUST/EOF/CLOSE only after the applications have settled)"
+    "'zero-window' (window 0/10, 2-3 application tasks, peer WINDOW_ADJUST/EOF/CLOSE only after the applications have settled). Family 'xkex' (real transport, "
+    "client|server role, vs raw puppet): 1-2 channels x pre-op none|shutdown_write|send x peer messages [data][eof]close|eof|data crossing the tested side's own "
+    "KEXINIT (held link) x local close|shutdown_write from an application thread during the exchange; oracle: exactly one CLOSE per peer CLOSE once the exchange is over"
 )
 
 CHUNK = 4096 - 64
@@ -558,6 +565,207 @@ def execute(ctx, case, strategy=None, extra_classes=()):
             ctx.violation(clause, bucket, case, detail)
 
 
+# ----------------------------------------------------------------------------- real transport: peer CLOSE crossing a re-exchange
+#
+# Family "xkex" (E3: production transport vs raw puppet on the in-memory link, latency control by holding one direction): the
+# tested side starts a key re-exchange (renegotiate_keys) whose KEXINIT is held on the link, so the peer does not know about it
+# yet and - legitimately - still sends connection-layer messages: [DATA] [EOF] CLOSE for 1-2 open channels.  They reach the
+# tested side between its KEXINIT and the peer's.  Then the link is released, the exchange completes, and a sentinel round trip
+# makes the puppet's log complete.  Optional local operations: shutdown_write before the exchange; close()/shutdown_write() from an
+# application thread while the exchange is in flight.  Oracle = clauses 1-2 on the wire the puppet saw: exactly one CLOSE per
+# channel whose peer CLOSE was delivered (the answer may be late, it may not be lost), at most one EOF, no DATA after them.
+
+XTO = 20.0
+X_SENTINEL = 193
+
+
+def run_xkex(ctx, case):
+    import threading
+    import time
+
+    from vlib import peers
+    from vlib import refssh as R
+
+    role = case["role"]
+    if role == "client":
+        link, tc, ts, _ = peers.connected_pair(client_cls=peers.VTransport, server_cls=peers.Puppet)
+        tested, puppet, out_dir, in_dir = tc, ts, link.ab, link.ba
+    else:
+        link, tc, ts, _ = peers.connected_pair(client_cls=peers.Puppet, server_cls=peers.VTransport)
+        tested, puppet, out_dir, in_dir = ts, tc, link.ba, link.ab
+    puppet.raw()
+    seen = [0]
+    threads = []
+
+    def wait_entry(pred, what):
+        start = seen[0]
+
+        def got(lg):
+            for i in range(start, len(lg)):
+                if pred(lg[i]):
+                    return i + 1
+            return None
+
+        r = puppet.wait_log(got, timeout=XTO)
+        if not r:
+            raise HarnessError("C22 xkex: tested side never sent %s" % what)
+        return puppet.log[r - 1]
+
+    def sync():
+        q = puppet.send_raw_seq(bytes([X_SENTINEL]) + b"verif")
+        echo = R.u32(q)
+        start = seen[0]
+
+        def got(lg):
+            for i in range(start, len(lg)):
+                if lg[i][1] == 3 and lg[i][2] == echo:
+                    return i + 1
+            if not tested.is_active():
+                return -1
+            return None
+
+        r = puppet.wait_log(got, timeout=XTO)
+        if not r or r < 0:
+            return None
+        seen[0] = r
+        return True
+
+    def idle(direction):
+        end = time.time() + XTO
+        ok = 0
+        while time.time() < end:
+            ok = ok + 1 if direction.idle() else 0
+            if ok >= 3:
+                return True
+            time.sleep(0.002)
+        return False
+
+    classes = ["xkex", "xkex:" + role, "xkex:chans=%d" % len(case["chans"])]
+    try:
+        chans = []
+        for i, spec in enumerate(case["chans"]):
+            pid = 700 + i
+            if role == "client":
+                res = {}
+                th = threading.Thread(target=lambda res=res: res.setdefault("c", tested.open_session(timeout=XTO)), daemon=True)
+                th.start()
+                e = wait_entry(lambda e: e[1] == 90, "CHANNEL_OPEN")
+                rd = R.Reader(e[2])
+                rd.string()
+                tid = rd.u32()
+                puppet.send_raw_seq(peers.m_channel_open_confirm(tid, pid))
+                th.join(XTO)
+                ch = res.get("c")
+            else:
+                puppet.send_raw_seq(peers.m_channel_open(b"session", pid))
+                e = wait_entry(lambda e: e[1] == 91, "OPEN_CONFIRMATION")
+                rd = R.Reader(e[2])
+                rd.u32()
+                tid = rd.u32()
+                ch = tested.accept(XTO)
+            if ch is None:
+                raise HarnessError("C22 xkex: channel setup failed")
+            if sync() is None:
+                raise HarnessError("C22 xkex: no sentinel echo during setup")
+            chans.append(dict(ch=ch, tid=tid, pid=pid, spec=spec))
+        for c in chans:
+            if c["spec"]["pre"] == "shutdown_write":
+                c["ch"].shutdown_write()
+            elif c["spec"]["pre"] == "send":
+                c["ch"].send(b"before")
+        if sync() is None:
+            raise HarnessError("C22 xkex: no sentinel echo after the pre-operations")
+        # the tested side starts a re-exchange; its KEXINIT waits on the link
+        out_dir.set_hold(True)
+        n0 = out_dir.n_pending()
+        rk = {}
+
+        def rekey():
+            try:
+                tested.renegotiate_keys()
+                rk["r"] = "ok"
+            except Exception as e:
+                rk["r"] = "exc %r" % (e,)
+
+        th = threading.Thread(target=rekey, daemon=True)
+        threads.append(th)
+        th.start()
+        if not out_dir.wait_pending(n0 + 1, XTO):
+            raise HarnessError("C22 xkex: KEXINIT not pending on the held link")
+        # the peer, not knowing about it, goes on: [DATA] [EOF] CLOSE
+        for c in chans:
+            for m in c["spec"]["cross"]:
+                if m == "data":
+                    puppet.send_raw_seq(peers.m_channel_data(c["tid"], b"crossing"))
+                elif m == "eof":
+                    puppet.send_raw_seq(peers.m_channel_eof(c["tid"]))
+                elif m == "close":
+                    puppet.send_raw_seq(peers.m_channel_close(c["tid"]))
+                    c["peer_closed"] = True
+            classes.append("xkex:crossing=" + "+".join(c["spec"]["cross"]))
+        if not idle(in_dir):
+            raise HarnessError("C22 xkex: tested side did not consume the crossing messages")
+        # application threads acting while the exchange is in flight (they wait for it to finish)
+        for c in chans:
+            op = c["spec"]["during"]
+            if op != "none":
+                classes.append("xkex:local-%s-during-exchange" % op)
+                f = c["ch"].close if op == "close" else c["ch"].shutdown_write
+                t2 = threading.Thread(target=lambda f=f: _quiet(f), daemon=True)
+                threads.append(t2)
+                t2.start()
+        time.sleep(0.01)
+        out_dir.set_hold(False)
+        for t in threads:
+            t.join(XTO)
+        ctx.case(case, True, sorted(set(classes)))
+        if any(t.is_alive() for t in threads) or rk.get("r") != "ok" or sync() is None:
+            ctx.violation(
+                "peer-close-not-answered",
+                "xkex:exchange-or-session-failed",
+                case,
+                "re-exchange crossed by the peer's %r: renegotiate_keys -> %r, threads alive %r, tested active=%s exception=%r"
+                % ([c["spec"]["cross"] for c in chans], rk.get("r"), [t.is_alive() for t in threads], tested.is_active(), tested.get_exception()),
+            )
+            return
+        log = list(puppet.log)
+        for c in chans:
+            mine = [e[1] for e in log if e[1] in (94, 95, 96, 97) and e[2][:4] == R.u32(c["pid"])]
+            n_close, n_eof = mine.count(97), mine.count(96)
+            where = "channel %d (crossing %r, pre %s, during %s): tested side sent %r" % (c["tid"], c["spec"]["cross"], c["spec"]["pre"], c["spec"]["during"], mine)
+            if n_close > 1:
+                ctx.violation("close-more-than-once", "xkex:%d" % min(n_close, 3), case, where)
+            if n_eof > 1:
+                ctx.violation("eof-more-than-once", "xkex:%d" % min(n_eof, 3), case, where)
+            if c.get("peer_closed") and n_close == 0:
+                ctx.violation("peer-close-not-answered", "xkex:closes=0", case, where + " - the peer's CLOSE crossed our KEXINIT and was never answered")
+            ends = [i for i, t in enumerate(mine) if t in (96, 97)]
+            if ends and any(t in (94, 95) for t in mine[ends[0] + 1 :]):
+                ctx.violation("data-after-eof-or-close", "xkex", case, where)
+    finally:
+        out_dir.set_hold(False)
+        peers.shutdown(tested, puppet)
+        for t in threads:
+            t.join(XTO)
+
+
+def _quiet(f):
+    try:
+        f()
+    except Exception:
+        pass  # outcome of the call is not judged here (the wire is)
+
+
+xkex_chan = st.fixed_dictionaries(
+    {
+        "pre": st.sampled_from(["none", "none", "shutdown_write", "send"]),
+        "cross": st.sampled_from([["close"], ["close"], ["eof", "close"], ["data", "close"], ["data", "eof", "close"], ["eof"], ["data"]]),
+        "during": st.sampled_from(["none", "none", "close", "shutdown_write"]),
+    }
+)
+xkex_case = st.fixed_dictionaries({"fam": st.just("xkex"), "role": st.sampled_from(["client", "server"]), "chans": st.lists(xkex_chan, min_size=1, max_size=2)})
+
+
 # ----------------------------------------------------------------------------- enumeration
 
 A_APP = [("send", 5), ("send_stderr", 5), ("sendall3",), ("shutdown_write",), ("shutdown2",), ("close",)]
@@ -638,6 +846,8 @@ def run(ctx):
     ctx.explore(case_st, lambda c: execute(ctx, c), ctx.scale(3600, 24000))
     ctx.explore(late_case_st, lambda c: execute(ctx, c, extra_classes=("late-task-program",)), ctx.scale(1000, 7000), seed_offset=5)
     ctx.explore(zero_window_case_st, lambda c: execute(ctx, c, extra_classes=("zero-window-program",)), ctx.scale(800, 5000), seed_offset=6)
+    # real transport vs puppet: the peer's CLOSE crosses a re-exchange started by the tested side (thread/timing engine: no shrinking)
+    ctx.explore(xkex_case, lambda c: run_xkex(ctx, c), ctx.scale(40, 400), shrink=False, seed_offset=7)
     if ctx.tier == "thorough":
         p2 = dfs_programs(2)
         ok1 = run_dfs(ctx, p2[ctx.worker :: ctx.nworkers], 3, False, 300000, "k3-2task")
@@ -660,4 +870,7 @@ def run(ctx):
 
 
 def replay(ctx, case):
+    if case.get("fam") == "xkex":
+        run_xkex(ctx, case)
+        return
     execute(ctx, case)
